@@ -188,7 +188,9 @@ impl Ex {
     /// nodes syntactically referenced (static over-approximation of call edges)
     pub fn refs(&self, out: &mut Vec<u8>) {
         match self {
-            Ex::K(_) | Ex::Cell(_) | Ex::Ext(_) | Ex::Push(_) | Ex::Call0 => {}
+            Ex::K(_) | Ex::Cell(_) | Ex::Ext(_) | Ex::Push(_) => {}
+            // marker: the zero-argument function evaluates `Program::root0`
+            Ex::Call0 => out.push(255),
             Ex::Call(n) | Ex::Call2(n, _) | Ex::Fld(n, _, _) | Ex::OnTs(n, _, _) | Ex::Len(n) => {
                 out.push(*n)
             }
